@@ -151,16 +151,19 @@ class Scratch:
                 continue
             if wanted is not None and h not in wanted:
                 continue
-            tgt = index.get(h)
+            # harness/<src>.rs and harness/<src>__<tag>.rs both attach to src/**/<src>.rs
+            base, _, tag = h[:-3].partition("__")
+            tgt = index.get(base + ".rs")
             if not tgt or len(tgt) != 1:
                 raise SystemExit("INCONCLUSIVE: cannot find unique src file for harness %s" % h)
             tgt = tgt[0]
+            modname = "__verif" + ("_" + tag if tag else "")
             with open(tgt, "a") as fh:
-                fh.write('\n#[cfg(kani)] #[path = "%s"] pub(crate) mod __verif;\n' % os.path.join(self.hdir, h))
+                fh.write('\n#[cfg(kani)] #[path = "%s"] pub(crate) mod %s;\n' % (os.path.join(self.hdir, h), modname))
             rel = os.path.relpath(tgt, src)[:-3].split(os.sep)
             if rel[-1] == "mod":
                 rel = rel[:-1]
-            self.modpath[h] = "::".join(rel + ["__verif"])
+            self.modpath[h] = "::".join(rel + [modname])
         libp = os.path.join(src, "lib.rs")
         lib = open(libp).read()
         lib = lib.replace("#![forbid(unsafe_code)]", "#![cfg_attr(not(kani), forbid(unsafe_code))]")
@@ -348,13 +351,14 @@ def run_harness(h, scratch, slot, logdir):
     if not os.path.isdir(tdir) and os.path.isdir(base):
         subprocess.call(["cp", "-a", base, tdir])
     logpath = os.path.join(logdir, h["id"] + ".log")
-    cap = int(float(h["cap"]) * float(os.environ.get("VERIF_CAP_SCALE", "1")))
+    cap = int(float(h["cap"]) * float(os.environ.get("VERIF_CAP_SCALE", "3")))
     # first run without trace generation (concrete playback costs ~10x on harnesses with covers)
     rc, to, wall = run_capped(kani_cmd(h, scratch, tdir, playback=False), scratch.repo, cap, logpath)
     text = open(logpath, errors="replace").read()
     parsed = parse_kani(text)
     status, reason, failed = classify(h, rc, to, text, parsed)
-    if status == "FAIL" and h["expect"] == "pass":
+    want_cex = h["expect"] == "pass" or (h["expect"] == "fail" and os.environ.get("VERIF_TIER_EFFECTIVE") == "thorough")
+    if status == "FAIL" and want_cex:
         # unexpected counterexample: re-run asking the solver for the concrete values
         logpath2 = os.path.join(logdir, h["id"] + ".playback.log")
         rc2, to2, wall2 = run_capped(kani_cmd(h, scratch, tdir, playback=True), scratch.repo, cap * 3, logpath2)
@@ -513,6 +517,7 @@ def main(argv):
         return do_replay_file(a.replay, hs)
 
     sel = select(hs, prop, a.tier, a.only)
+    os.environ["VERIF_TIER_EFFECTIVE"] = a.tier
     import vaux
     aux = vaux.AUX.get(prop, [])
     if not sel and not aux:
@@ -524,8 +529,26 @@ def main(argv):
     # schedule: long caps first; VERIF_SEED only rotates the order of equal-cap harnesses
     sel.sort(key=lambda h: (-int(h["cap"]), (hash((h["id"], seed)) & 0xffff)))
     outdir = os.path.join(os.environ.get("VERIF_OUT", os.path.join(VERIF, "out")), prop)
-    shutil.rmtree(outdir, ignore_errors=True)
-    os.makedirs(outdir + "/logs")
+    # per-process log directory (concurrent runs of the same property must not disturb each other)
+    os.makedirs(outdir, exist_ok=True)
+    for old in glob.glob(outdir + "/logs*"):
+        try:
+            if time.time() - os.path.getmtime(old) > 6 * 3600:
+                shutil.rmtree(old, ignore_errors=True)
+        except OSError:
+            pass
+    logs = outdir + "/logs.%d" % os.getpid()
+    os.makedirs(logs)
+    latest = outdir + "/logs"
+    try:
+        if os.path.islink(latest) or os.path.exists(latest):
+            if os.path.islink(latest):
+                os.unlink(latest)
+            else:
+                shutil.rmtree(latest, ignore_errors=True)
+        os.symlink(logs, latest)
+    except OSError:
+        pass
     results = []
     aux_results = []
     with Scratch(keep=a.keep, files=sorted({h["file"] for h in sel})) as sc:
@@ -536,8 +559,8 @@ def main(argv):
             cmd = ["cargo", "kani", "-Z", "stubbing", "-Z", "unstable-options", "-Z", "function-contracts",
                    "--only-codegen", "--harness", "__no_such_harness__", "--target-dir", base,
                    "--no-overflow-checks", "--no-memory-safety-checks"]
-            rc, to, wall = run_capped(cmd, sc.repo, 900, outdir + "/logs/_prebuild.log")
-            txt = open(outdir + "/logs/_prebuild.log", errors="replace").read()
+            rc, to, wall = run_capped(cmd, sc.repo, 900, logs + "/_prebuild.log")
+            txt = open(logs + "/_prebuild.log", errors="replace").read()
             if "error: could not compile" in txt or re.search(r"^error(\[E\d+\])?:", txt, re.M):
                 m = re.search(r"^(error(\[E\d+\])?:.*(?:\n.*){0,6})", txt, re.M)
                 log("INCONCLUSIVE property=%s harness=* reason=crate+harnesses do not compile under kani:\n%s"
@@ -551,7 +574,7 @@ def main(argv):
             def work(h):
                 slot = slots.pop()
                 try:
-                    return run_harness(h, sc, slot, outdir + "/logs")
+                    return run_harness(h, sc, slot, logs)
                 finally:
                     slots.append(slot)
             futs = {ex.submit(work, h): h for h in sel}
@@ -583,8 +606,14 @@ def main(argv):
                         inconclusive.append((r, "expected-failure twin did not fail: %s" % r["status"]))
                     continue
                 if r["status"] == "FAIL":
-                    known_lines.append("KNOWN-FINDING: property=%s %s [%s; witness harness %s: %s]" % (
-                        prop, kf["what"], kf["id"], h["id"], r["reason"]))
+                    extra = ""
+                    if r.get("playback") is not None and a.tier == "thorough":
+                        tests = [t for t in (r.get("playback") or [])]
+                        if tests:
+                            rep, detail, case = native_replay(h, tests[:2], [c["desc"] for c in r["failed"]], sc, h["id"])
+                            extra = "; native replay of the witness: %s" % ("REPRODUCED" if rep else "NOT reproduced: " + "; ".join(detail)[:300])
+                    known_lines.append("KNOWN-FINDING: property=%s %s [%s; witness harness %s: %s%s]" % (
+                        prop, kf["what"], kf["id"], h["id"], r["reason"], extra))
                 elif r["status"] == "PASS":
                     log("note: known finding %s no longer reproduces (witness harness %s passes)" % (kf["id"], h["id"]))
                 else:
